@@ -58,6 +58,7 @@ inline EQ cos(const EQ& u) { return fn1(u, cosq(u.v), -sinq(u.v)); }
 inline EQ exp(const EQ& u) { Q f = expq(u.v); return fn1(u, f, f); }
 inline EQ log(const EQ& u) { return fn1(u, logq(u.v), 1 / u.v); }
 inline EQ sqrt(const EQ& u) { Q f = sqrtq(u.v); return fn1(u, f, 1 / (2 * f)); }
+inline EQ asin(const EQ& u) { return fn1(u, asinq(u.v), 1 / sqrtq(1 - u.v * u.v)); }
 inline EQ abs(const EQ& u) { return EQ(fabsq(u.v), u.e); }
 inline EQ pow(const EQ& u, const EQ& p) {   // u > 0
   Q f = powq(u.v, p.v);
